@@ -747,7 +747,11 @@ struct DomExec {
     }
     if (k == "MoveNode" || k == "SwapNode") {
       auto o2 = resolve(root, s.m, op.S(1));
-      if (o2.n == &n) return false;
+      if (o2.n == &n) {   // the library guards self-assignment explicitly (this != &rhs): it must be a no-op
+        if (k == "MoveNode") { N& self = n; n = std::move(self); } else n.Swap(n);
+        probe("self_move_or_swap");
+        ob = "self"; return true;
+      }
       if (k == "MoveNode") {
         // dst = std::move(src): src may be inside dst, dst must not be inside src
         if (is_prefix(o2.idx, t.idx)) return false;
